@@ -136,6 +136,11 @@ def keywordsOf : DTag → List (List Char)
 
 def isKeyword (tag : DTag) (tv : List Char) : Bool := (keywordsOf tag).contains tv
 
+/-- the annotation keyword of some Thrift type (`isTypeKeyword` of types.go) -/
+def isTypeKeyword (tv : List Char) : Bool :=
+  [DTag.bool, .i8, .double, .i16, .i32, .i64, .string, .binary, .strct, .map].any (isKeyword · tv) ||
+    tv == "list".toList || tv == "set".toList
+
 /-- the parsed type together with what the cache key / later checks need -/
 structure PTy where
   ty : Ty
@@ -158,15 +163,18 @@ def doMatchStruct (vt : GoTy) (rest : List Char) (tv : List Char) :
   | some (tok, sp) =>
     -- an anonymous struct answers to any name, qualified or not (D23: it used to answer before the
     -- qualifier was consumed)
+    -- … and not to the keyword of another type (D25)
     let anon := vt.name == "" && vt.isStructKind
-    if tok.isEmpty || tok == [':'] || tok == ['>'] then some (anon || String.ofList tv == vt.name, rest)
+    if tok.isEmpty || tok == [':'] || tok == ['>'] then
+      some ((anon && !isTypeKeyword tv) || String.ofList tv == vt.name, rest)
     else if tok != ['.'] then none
     else
       match readToken sp false with
       | none => none
       | some (tv2, sp2) =>
         match tv2 with
-        | c :: _ => if !isIdent0 c then none else some (anon || String.ofList tv2 == vt.name, sp2)
+        | c :: _ =>
+          if !isIdent0 c then none else some ((anon && !isTypeKeyword tv2) || String.ofList tv2 == vt.name, sp2)
         | [] => none
 
 def isKeyType : Ty → Bool
